@@ -1,7 +1,9 @@
 """C19 rules: R-SCAN-FILTER, R-SCAN-CURSOR, R-SCAN-TERM over StorageEngine::{scan,hscan,sscan,zscan}."""
 import re
 from facts import callee, op_local, op_place, op_is_const, const_int
-import cfg, shared, prov, rules_rdb
+import json
+import cfg, shared, prov, rules_rdb, boolpath
+from facts import AnchorMissing
 from shared import ENGINE
 
 FNS = ["scan", "hscan", "sscan", "zscan"]
@@ -27,105 +29,256 @@ def result_roots(b):
     return items, cursors
 
 
-def flag_false_stores(b):
-    """{flag_local: [blocks storing const false]}"""
-    out = {}
-    for i, bb in enumerate(b.bbs):
-        for st in bb["s"]:
-            if st["k"] == "=" and not st["l"]["p"] and b.locals[st["l"]["l"]] == "bool" and st["r"]["k"] == "use" and op_is_const(st["r"]["o"]) and st["r"]["o"]["c"] == "false":
-                if st["l"]["l"] in b.names:
-                    out.setdefault(st["l"]["l"], []).append(i)
+OPT_SHAPE = re.compile(prov.PASS_THROUGH.pattern[:-1] + r"|^std::option::Option::<.*>::(map|inspect)(::<.*>)?$)")
+ITER_SRC = re.compile(r"(Iterator>::collect::<|as std::iter::Extend<.*>>::extend::<|::to_vec$|as std::iter::FromIterator<.*>>::from_iter)")
+FILTERING = re.compile(r"Iterator>::(filter|take_while|skip_while)::<")
+
+
+class _Spec(boolpath.Spec):
+    """evidence for "this element may be returned": a successful MATCH test of the engine's glob
+    matcher, or the knowledge that no pattern was given.  `subj` = parameters (locals) and captured
+    variable names that hold the optional pattern (or an Option derived from it by map/as_ref/...)."""
+
+    def __init__(s, prog, b, subj_params, subj_upvars=(), memo=None):
+        s.prog = prog; s.b = b
+        s.params = set(subj_params); s.upvars = set(subj_upvars)
+        s.memo = memo if memo is not None else {}
+
+    # -- which operands hold the subject Option
+    def is_subject(s, b, o):
+        if op_is_const(o):
+            return False
+        pl = op_place(o)
+        if "Option<" not in b.locals[pl["l"]]:
+            return False
+        P = prov.origins(b, pl["l"], pass_through=OPT_SHAPE)
+        prov._note_fields(P, b, pl)
+        if P.params() & s.params:
+            return True
+        if b.kind == "Closure" and s.upvars:
+            for r in P.roots:
+                if r[0] == "upvar":
+                    for name, place in b.upvars:
+                        if name in s.upvars and place["p"][:1] == json.loads(r[1])[:1] or (name in s.upvars and json.dumps(place["p"]).startswith(r[1][:-1])):
+                            return True
+            # any projection of the closure environment naming a subject capture
+            for name, place in b.upvars:
+                if name in s.upvars and any(rr[0] == "upvar" and _same_field(rr[1], place) for rr in P.roots):
+                    return True
+        return False
+
+    def evidence_call(s, f):
+        return None
+
+    def sub(s, cb, subj_params, subj_upvars):
+        return type(s)(s.prog, cb, subj_params, subj_upvars, s.memo)
+
+    def body_kind(s, fn, subj_params=(), subj_upvars=()):
+        cb = s.prog.bodies.get(fn)
+        if cb is None or cb.locals[0] != "bool":
+            return None
+        k = (type(s).__name__, fn, frozenset(subj_params), frozenset(subj_upvars))
+        if k in s.memo:
+            return s.memo[k]
+        s.memo[k] = None          # recursion guard
+        try:
+            s.memo[k] = boolpath.ret_kind(cb, s.sub(cb, subj_params, subj_upvars))
+        except boolpath.TooManyStates:
+            s.memo[k] = None      # not summarised: its result is no evidence
+        return s.memo[k]
+
+    def closure_kind(s, cl):
+        """kind of a closure created in s.b (captures of subject variables stay subjects)"""
+        names = {s.b.names.get(l) for l in s.params} | set(s.upvars)
+        # locals of s.b derived from the subject are subjects under their own names too
+        for l, nm in s.b.names.items():
+            if "Option<" in s.b.locals[l] and s.is_subject(s.b, {"cp": {"l": l, "p": []}}):
+                names.add(nm)
+        names.discard(None)
+        return s.body_kind(cl, (), names)
+
+    def call(s, b, bbi, t):
+        f = callee(t)
+        v = s.evidence_call(t)
+        if v is not None:
+            return v
+        v = boolpath.option_call(b, t, s.is_subject, s.closure_kind)
+        if v is not None:
+            return v
+        cb = s.prog.bodies.get(f)
+        if cb is not None and cb.locals[0] == "bool" and cb.kind != "Closure":
+            sp = {i + 1 for i, a in enumerate(t["a"]) if s.is_subject(b, a)}
+            return s.body_kind(f, sp, ())
+        return None
+
+    def edges(s, b, bbi, t):
+        """`match subject { None => .. }`: the None edge of a discriminant switch on the subject"""
+        return boolpath.none_edge(b, bbi, t, s.is_subject)
+
+
+def _same_field(root_json, place):
+    try:
+        return [e for e in json.loads(root_json) if e != "*"][:1] == [e for e in place["p"] if e != "*"][:1]
+    except Exception:
+        return False
+
+
+class MatchSpec(_Spec):
+    def evidence_call(s, t):
+        return boolpath.A if callee(t) == PM else None
+
+
+class LiveSpec(_Spec):
+    """evidence: the entry is not expired"""
+    def evidence_call(s, t):
+        return boolpath.N if callee(t).endswith("::is_expired") else None
+
+
+class TypeSpec(_Spec):
+    """evidence: the entry's type name equals the TYPE filter, or no TYPE filter was given"""
+    def evidence_call(s, t):
+        f = t["f"] or ""
+        if re.search(r"(^<&?str as std::cmp::PartialEq.*>::|str as std::cmp::PartialEq.*>::)(eq|ne)$", f):
+            return boolpath.A if f.endswith("::eq") else boolpath.N
+        return None
+
+
+def _chain_filters(b, o, depth=0):
+    """closures handed to filter-type adaptors in the iterator chain that produces operand o"""
+    out = []
+    if op_is_const(o) or depth > 12:
+        return out
+    for kind, bbi, x in prov.build_defs(b).get(op_place(o)["l"], ()):
+        if kind == "call" and x["a"]:
+            if FILTERING.search(x["f"] or "") and x.get("clos"):
+                out.append(x["clos"][-1])
+            if re.search(r"Iterator>::|IntoIterator>::into_iter|::iter$|::keys$|::values$", x["f"] or ""):
+                out += _chain_filters(b, x["a"][0], depth + 1)
+        elif kind == "stmt" and x["r"]["k"] == "use" and not x["l"]["p"]:
+            out += _chain_filters(b, x["r"]["o"], depth + 1)
     return out
+
+
+def _bulk_sources(b, roots):
+    """calls that fill one of the `roots` collections from an iterator (collect / extend / to_vec):
+       [(block, terminator, filter closures of the chain)]"""
+    out = []
+    for i, t in b.calls():
+        f = t["f"] or ""
+        if not ITER_SRC.search(f) or not t["a"]:
+            continue
+        if "::extend::<" in f:
+            tgt = rules_rdb.root_locals(b, t["a"][0]); src = t["a"][1] if len(t["a"]) > 1 else None
+        else:
+            tgt = {t["d"]["l"]} | _flows_to(b, t["d"]["l"]); src = t["a"][0]
+        if tgt & roots and src is not None:
+            out.append((i, t, _chain_filters(b, src)))
+    return out
+
+
+def _flows_to(b, l, depth=0):
+    """locals that receive the value of l by plain moves/copies"""
+    out = set()
+    if depth > 6:
+        return out
+    for bb in b.bbs:
+        for st in bb["s"]:
+            if st["k"] == "=" and st["r"]["k"] == "use" and not op_is_const(st["r"]["o"]) and not st["l"]["p"]:
+                pl = op_place(st["r"]["o"])
+                if pl["l"] == l and not pl["p"] and st["l"]["l"] not in out:
+                    out.add(st["l"]["l"]); out |= _flows_to(b, st["l"]["l"], depth + 1)
+    return out
+
+
+def _param_of_type(b, rx):
+    return {i for i in range(1, b.nargs + 1) if re.search(rx, b.locals[i])}
 
 
 def rule_filter(ctx, R):
     n = 0
+    memo = {}
     for nm in FNS:
         b = ctx.prog.need(ENGINE + nm)
         items, _ = result_roots(b)
+        pat = _param_of_type(b, r"^std::option::Option<&\[u8\]>$")
+        if not pat:
+            raise AnchorMissing("%s has no `Option<&[u8]>` pattern parameter" % nm)
+        spec = MatchSpec(ctx.prog, b, pat, (), memo)
+        try:
+            ex = boolpath.explore(b, spec)
+        except boolpath.TooManyStates as e:
+            raise AnchorMissing(str(e))
         pushes = [(i, t) for i, t in b.calls() if PUSH.match(t["f"] or "")]
         ret_pushes = [(i, t) for i, t in pushes if rules_rdb.root_locals(b, t["a"][0]) & items]
-        # matching edges of pattern_matches calls
-        match_reg = set(); nomatch_reg = set()
-        for i, t in b.calls():
-            if callee(t) == PM and t["t"] >= 0:
-                sw = shared._follow_to_switch(b, t["t"], t["d"]["l"])
-                if sw:
-                    zero = dict(sw[1]["ts"]).get(0)
-                    match_reg |= cfg.edge_dom_set(b, sw[0], sw[1]["o"])
-                    if zero is not None:
-                        nomatch_reg |= cfg.edge_dom_set(b, sw[0], zero)
-        # `pattern.is_none()` true edges
-        none_reg = set()
-        for i, t in b.calls():
-            if re.search(r"Option::<&\[u8\]>::is_none$", t["f"] or "") and t["t"] >= 0:
-                sw = shared._follow_to_switch(b, t["t"], t["d"]["l"])
-                if sw:
-                    none_reg |= cfg.edge_dom_set(b, sw[0], sw[1]["o"])
-        # also: `if let Some(pat) = pattern_str` None edge inside the loop (no pattern => include)
-        flags = flag_false_stores(b)
-        good_flags = {f for f, blocks in flags.items() if any(x in nomatch_reg for x in blocks)}
-        flag_true_reg = set()
-        for i, bb in enumerate(b.bbs):
-            t = bb["t"]
-            if t["k"] == "switch":
-                l = op_local(t["d"]); src = l
-                for st in bb["s"]:
-                    if st["k"] == "=" and st["l"]["l"] == l and st["r"]["k"] == "use" and not op_is_const(st["r"]["o"]):
-                        src = op_local(st["r"]["o"])
-                if src in good_flags:
-                    flag_true_reg |= cfg.edge_dom_set(b, i, t["o"])
-        if not ret_pushes:
+        bulk = _bulk_sources(b, items)
+        if not ret_pushes and not bulk:
             R.finding(b.fn, "filter:no-result-push", "%s returns nothing it collected" % nm, b.loc())
-        # return sites per collection: a collection returned only under `no pattern` needs no
-        # per-element filter
+        # where each returned collection is returned: a collection that is handed out only under
+        # `no pattern` needs no per-element filter
         ret_sites = {}
         for x, bb in enumerate(b.bbs):
             for st in bb["s"]:
                 if st["k"] == "=" and st["r"]["k"] == "agg" and st["r"]["a"] == "tuple" and len(st["r"]["o"]) == 2 and b.locals[st["l"]["l"]].startswith("(u64, std::vec::Vec<") and not op_is_const(st["r"]["o"][1]):
                     for l in rules_rdb.root_locals(b, st["r"]["o"][1]):
                         ret_sites.setdefault(l, []).append(x)
+
+        def returned_only_under_evidence(roots, frm):
+            sites = [x for l in roots for x in ret_sites.get(l, []) if x in cfg.fwd(b, [frm])]
+            return bool(sites) and all(x not in ex.reached for x in sites)
         k = 0
         for i, t in ret_pushes:
             n += 1
-            roots = rules_rdb.root_locals(b, t["a"][0])
-            sites = [x for l in roots for x in ret_sites.get(l, [])]
-            only_unfiltered_returns = bool(sites) and all(x in none_reg for x in sites if x in cfg.fwd(b, [i]))
-            ok = i in match_reg or i in none_reg or i in flag_true_reg or only_unfiltered_returns
-            R.inst(b.fn, "push#%d" % k, {"function": nm, "at": b.loc(i), "under_match_or_no_pattern": ok})
+            ok = i not in ex.reached or returned_only_under_evidence(rules_rdb.root_locals(b, t["a"][0]) & items, i)
+            R.inst(b.fn, "push#%d" % k, {"function": nm, "at": b.loc(i), "only_under_match_or_no_pattern": ok})
             if not ok:
                 R.finding(b.fn, "push#%d:unfiltered" % k,
-                          "%s adds an element to its result (line %d) on a path that is neither under a successful MATCH test nor under `no pattern given`: elements not satisfying the filter are returned" % (nm, b.bb_line(i)), b.loc(i))
+                          "%s adds an element to its result (line %d) on a path that is neither under a successful MATCH test nor under `no pattern given`: elements not satisfying the filter are returned" % (nm, b.bb_line(i)), b.loc(i),
+                          ["bb%d line %d" % (x, b.bb_line(x)) for x in ex.witness(b, i)][-12:])
+            k += 1
+        k = 0
+        for i, t, filters in bulk:
+            n += 1
+            tgt = (rules_rdb.root_locals(b, t["a"][0]) if "::extend::<" in (t["f"] or "") else ({t["d"]["l"]} | _flows_to(b, t["d"]["l"]))) & items
+            ok = i not in ex.reached or any(spec.closure_kind(c) == boolpath.A for c in filters) or returned_only_under_evidence(tgt, i)
+            R.inst(b.fn, "bulk#%d" % k, {"function": nm, "at": b.loc(i), "only_under_match_or_no_pattern": ok})
+            if not ok:
+                R.finding(b.fn, "bulk#%d:unfiltered" % k,
+                          "%s fills its result from an iterator (line %d) on a path that is neither under `no pattern given` nor filtered by the MATCH test: elements not satisfying the filter are returned" % (nm, b.bb_line(i)), b.loc(i))
             k += 1
     R.floor("result_pushes", n)
     # key-space scan: expired keys and keys of another TYPE never enter the candidate list
     b = ctx.prog.need(ENGINE + "scan")
-    cand = [(i, t) for i, t in b.calls() if PUSH.match(t["f"] or "") and not (rules_rdb.root_locals(b, t["a"][0]) & result_roots(b)[0])]
-    exp_t = set()
-    for i, t in b.calls():
-        if callee(t).endswith("::is_expired") and t["t"] >= 0:
-            sw = shared._follow_to_switch(b, t["t"], t["d"]["l"])
-            if sw:
-                exp_t.add((sw[0], sw[1]["o"]))
-    ne_t = set()
-    for i, t in b.calls():
-        if re.search(r"^<&str as std::cmp::PartialEq>::(ne|eq)$|str as std::cmp::PartialEq.*>::(ne|eq)$", t["f"] or "") and t["t"] >= 0:
-            srcs = [prov.operand_origins(b, a) for a in t["a"]]
-            if any(5 in P.params() for P in srcs):      # type_filter parameter
-                sw = shared._follow_to_switch(b, t["t"], t["d"]["l"])
-                if sw:
-                    zero = dict(sw[1]["ts"]).get(0)
-                    ne_t.add((sw[0], sw[1]["o"] if (t["f"] or "").endswith("::ne") else zero))
-    heads = set(cfg.loops(b).keys())
+    items = result_roots(b)[0]
+    tyf = _param_of_type(b, r"^std::option::Option<&str>$")
+    if not tyf:
+        raise AnchorMissing("scan has no `Option<&str>` TYPE parameter")
+    live = LiveSpec(ctx.prog, b, (), (), memo); ty = TypeSpec(ctx.prog, b, tyf, (), memo)
+    try:
+        exl = boolpath.explore(b, live); ext = boolpath.explore(b, ty)
+    except boolpath.TooManyStates as e:
+        raise AnchorMissing(str(e))
+    cand_ty = lambda l: b.locals[l] in ("std::vec::Vec<std::vec::Vec<u8>>", "&mut std::vec::Vec<std::vec::Vec<u8>>")
+    cand = [(i, t, None) for i, t in b.calls() if PUSH.match(t["f"] or "") and not (rules_rdb.root_locals(b, t["a"][0]) & items)]
+    allvecs = {l for l in range(len(b.locals)) if cand_ty(l)} - items
+    cand += [(i, t, fl) for i, t, fl in _bulk_sources(b, allvecs) if _from_shard_map(b, t)]
     R.floor("candidate_pushes", len(cand))
-    for i, t in cand:
-        bad_exp = any(i in cfg.fwd(b, [tgt], cut=heads) for (s_, tgt) in exp_t) or not exp_t
-        bad_ty = any(i in cfg.fwd(b, [tgt], cut=heads) for (s_, tgt) in ne_t if tgt is not None) or not ne_t
-        R.inst(b.fn, "candidate-push", {"at": b.loc(i), "reachable_from_expired_edge": bad_exp, "reachable_from_type_mismatch_edge": bad_ty})
+    for i, t, filters in cand:
+        if filters is None:
+            bad_exp = i in exl.reached; bad_ty = i in ext.reached
+        else:
+            bad_exp = i in exl.reached and not any(live.closure_kind(c) == boolpath.A for c in filters)
+            bad_ty = i in ext.reached and not any(ty.closure_kind(c) == boolpath.A for c in filters)
+        R.inst(b.fn, "candidate-push", {"at": b.loc(i), "reachable_without_liveness_test": bad_exp, "reachable_without_type_test": bad_ty})
         if bad_exp:
             R.finding(b.fn, "candidate:expired-included", "SCAN collects a key although its is_expired() test was true (or there is no such test)", b.loc(i))
         if bad_ty:
             R.finding(b.fn, "candidate:type-mismatch-included", "SCAN collects a key whose type differs from the TYPE filter (or the filter is not tested)", b.loc(i))
+
+
+def _from_shard_map(b, t):
+    """does the iterator feeding this collect/extend walk the shard map?"""
+    src = t["a"][1] if "::extend::<" in (t["f"] or "") and len(t["a"]) > 1 else t["a"][0]
+    return "StoredValue" in (t["f"] or "") or "StoredValue" in b.locals[op_place(src)["l"]] if not op_is_const(src) else False
 
 
 def rule_cursor(ctx, R):
